@@ -8,6 +8,7 @@ TRUSTED_BASE = [
     "hand-written Gallina model coq/ChronoModel.v of convert_chrono.h / bin_timestamp.h and of the libstdc++ <chrono> templates they instantiate (duration_cast, floor, round, duration operators with common_type and integral promotion), tied to /repo by this correspondence run",
     "modelled library functions (validated by the correspondence only): std::to_chars / std::from_chars for integers, snprintf(\"%04ld-%02d-..\") incl. its return value on truncation, std::isdigit / std::isspace in the C locale",
     "extraction: ExtrOcamlBasic only; Z/N/positive/nat stay extracted inductives",
+    "T_C14_bin_ts_wire composes this model with the MsgPack family's coq/MpModel.v (wr_ts, read_ts: hand-written models of WriteValue / ReadValue(CBinTimestamp), theorems of C06 / C07); tied to /repo end to end by the ts.wire cases (SaveObject / LoadObject<MsgPackArchive> of a time_point / duration through types/std/chrono.h; the driver links src/msgpack/*.cpp)",
     "trusted glue: ml/glue.ml, ml/glue_chrono.ml, ml/chrono_driver.ml, harness/drv_chrono.cpp, harness/common.h, props/chrono_common.py (case syntax, hashing, decimal<->Z, sanitizer-report -> UB class mapping)",
 ]
 ASSUMPTIONS = [
@@ -109,6 +110,23 @@ def explicit_cases(rng, tier):
         if op == "dur.print" and not K.can_print_dur(p, r):
             op = "ts.to dur"
         (risky if op.endswith("print") else plain).append("%s %s %s %d" % (op, p, r, c))
+    # through the MsgPack archive (To(value, CBinTimestamp&), WriteValue; ReadValue, To(CBinTimestamp, value&)):
+    # seconds around the borders of the three timestamp formats, with and without a fraction, and random values
+    for p in K.PRECS:
+        t = K.TICK_NS[p]
+        for r in K.REPS:
+            lo, hi = K.RMIN[r], K.RMAX[r]
+            vals = set([lo, hi, 0, 1, -1])
+            for sec in (0, 1, 2 ** 32 - 1, 2 ** 32, 2 ** 32 + 1, 2 ** 34 - 1, 2 ** 34, 2 ** 34 + 1, -1, -2, -2 ** 34, 2 ** 62, -2 ** 62):
+                c = sec * 10 ** 9 // t
+                for dd in (-1, 0, 1):
+                    vals.add(c + dd)
+            for c in sorted(v for v in vals if lo <= v <= hi):
+                plain.append("ts.wire tp %s %s %d" % (p, r, c))
+                plain.append("ts.wire dur %s %s %d" % (p, r, c))
+    for _ in range(1500 if tier == "quick" else 40000):
+        p = rng.choice(K.PRECS); r = rng.choice(K.REPS)
+        plain.append("ts.wire %s %s %s %d" % (rng.choice(["tp", "dur"]), p, r, rand_value(rng, r)))
     # struct tm printing (no calendar): field values as given
     for _ in range(300 if tier == "quick" else 3000):
         y = rng.choice([0, 1, -1, 70, 123, 1970, 9999, 10000, -999, -1000, 2 ** 31 - 1, -2 ** 31, rng.randrange(-2 ** 31, 2 ** 31)])
